@@ -61,6 +61,18 @@ KM_STARTS = ("cold", "inds", "state", "all", "pairs", "pairs_state")
 EST_LIVES = ("fresh", "fresh", "reconfigured", "refit")
 
 
+class ReusedBufferChebyshev:
+    def __init__(self):
+        self.buf = None
+
+    def __call__(self, X, y):
+        d = np.abs(np.asarray(X, dtype=np.float64) - np.asarray(y, dtype=np.float64)).max(axis=1)
+        if self.buf is None or self.buf.shape != d.shape:
+            self.buf = np.empty_like(d)
+        self.buf[...] = d
+        return self.buf
+
+
 def _decoy_metric(name):
     from enspara.cluster import util as cl_util
     return cl_util._get_distance_method("manhattan" if name != "manhattan" else "euclidean")
@@ -337,6 +349,11 @@ def execute(case):
     if name == "manhattan" and case.get("alias"):
         M = "cityblock"
         run.classes.append("metric_name=cityblock")
+    if name == "chebyshev" and case.get("alias"):
+        # a user metric that writes every result into one preallocated work vector and returns it (the equivalent of
+        # functools.partial(libdist.euclidean, out=scratch)): the values are right at the moment of return
+        M = ReusedBufferChebyshev()
+        run.classes.append("metric_name=chebyshev_reused_buffer")
     entry = case["entry"]
     cl = run.classes
     cl += ["entry=" + entry, "metric=" + name, "dtype=" + case["data"]["dtype"],
